@@ -130,7 +130,7 @@ def fastcopy(v, memo):
         memo[k] = r
         return r
     if isinstance(v, BoxRef):
-        r = BoxRef(None)
+        r = v.__class__(None)
         memo[k] = r
         r.obj = fastcopy(v.obj, memo)
         return r
@@ -435,10 +435,24 @@ class Executor:
             base = re.escape(strip_generics(m.group(1)))
             fn = self._promoted_of_current(st, m.group(2)) or self._find_promoted(m.group(1), m.group(2))
             return self.eval_promoted(st, fn)
+        # named scalar constants of the crate: `const path::NAME: ty = const LITERAL;` in the dump
+        if re.fullmatch(r"[\w:]+", t) and t.split("::")[-1].isupper():
+            lit = self._named_consts().get(t.split("::")[-1])
+            if lit is not None:
+                return self.const(st, lit, ty_hint)
         # unit struct / unit-like constants (e.g. `stdfs::Stdfs`)
         if re.fullmatch(r"[\w:]+", t):
             return Adt(t.split("::")[-1], None, None, [])
         raise Unsupported("constant " + t)
+
+    def _named_consts(self):
+        if getattr(self, "_nconsts", None) is None:
+            self._nconsts = {}
+            for l in self.mir.lines:
+                m = re.match(r"^const ([\w:]+): [^=]+ = const (.+);$", l)
+                if m:
+                    self._nconsts[m.group(1).split("::")[-1]] = m.group(2)
+        return self._nconsts
 
     def _promoted_of_current(self, st, idx):
         """promoted bodies are printed right after their owner: look between the executing function's
